@@ -296,7 +296,7 @@ fn kinds_line() {
     core::mem::forget(st);
 }
 
-// @verif property=C14,C06,C01 tier=quick timeout=1800 mem=24 bounds="line '$a,$b,$c,$d,0,$f' with the type EVERY i32 (kind precedence circle>slider>spinner>hold, unknown kinds), end time every f64 / error; arbitrary predecessor"
+// @verif property=C14,C01 tier=quick timeout=1800 mem=24 bounds="line '$a,$b,$c,$d,0,$f' with the type EVERY i32 (kind precedence circle>slider>spinner>hold, unknown kinds), end time every f64 / error; arbitrary predecessor"
 oracle_proof!(c14_kinds, 32, kinds_line());
 // @verif property=C14,C06,C01 tier=thorough timeout=1800 mem=24 bounds="circle line with extras '$a,$b,$c,$d,10,$f:$g:$h:$i:' (hit sound 10 = whistle+clap; banks, custom index, volume every i32 / error)" covers=5
 oracle_proof!(c14_circle_extras_sound10, 40, circle_line(true, Some(10), "$a,$b,$c,$d,10,$f:$g:$h:$i:"));
@@ -370,7 +370,7 @@ fn path_two_points(letter_code: u8, template: &'static str) {
     core::mem::forget(st);
 }
 
-// @verif property=C14,C06,C01 tier=quick timeout=1500 mem=20 bounds="convert_path_str on 'P|$a:$b|$c:$d' (coordinates every f64 / error), offset any integer pair in [-32768,32767]; no repeated consecutive points" covers=3
+// @verif property=C14 tier=quick timeout=1500 mem=20 bounds="convert_path_str on 'P|$a:$b|$c:$d' (coordinates every f64 / error), offset any integer pair in [-32768,32767]; no repeated consecutive points" covers=3
 oracle_proof!(c14_path_p2, 24, path_two_points(4, "P|$a:$b|$c:$d"));
 // @verif property=C14,C06,C01 tier=quick timeout=1500 mem=20 bounds="convert_path_str on 'B|$a:$b|$c:$d'" covers=2
 oracle_proof!(c14_path_b2, 24, path_two_points(2, "B|$a:$b|$c:$d"));
